@@ -72,8 +72,8 @@ def gen_title(rng, q):
             res.append(t[i])
         i += 1
     t = "".join(res)
-    if t.endswith("\\") and not t.endswith("\\\\"):
-        t += "\\"
+    if (len(t) - len(t.rstrip("\\"))) % 2:
+        t += "\\"      # an odd run of backslashes at the end would escape the closing quote
     # a continuation line must not start a block of its own (quote, list, heading ...): that is block structure
     t = re.sub(r"\n(?![a-z])", "\nz", t)
     return q + t + esc
